@@ -98,7 +98,8 @@ def main(pid):
         if cl in mine:
             c = cfgs[ix]
             vd.violation(cl, {"kind": "toy", "config": c, "observed": obs[ix]},
-                         {"clause": cl, "kinds": "-".join(x["kind"] for x in c["cands"])})
+                         {"clause": cl, "kinds": "-".join(x["kind"] for x in c["cands"])},
+                         judge=vlib.J("Trace_Tokenize", "Trace_Tokenize.cfg", traces[ix]))
     for ix in drifts:
         vd.spec_drift("Tokenize", f"toy config {cfgs[ix]['cands']} sp={cfgs[ix]['sp']}")
     ev.sample({"toy_config": cfgs[len(cfgs) // 2], "words": [(w["cs"], w["ce"], w["special"]) for w in obs[len(cfgs) // 2]["words"]]})
@@ -140,7 +141,9 @@ def main(pid):
             it = items[ix]
             vd.violation(cl, {"kind": "document", "text": it["text"], "tokenizer": it["tok"],
                               "words": ["".join(map(chr, w["t"])) for w in obs[ix]["words"]]},
-                         {"clause": cl, "tokenizer": it["tok"], "shape": shape(it["text"])})
+                         {"clause": cl, "tokenizer": it["tok"], "shape": shape(it["text"])},
+                         judge=vlib.J("Trace_Tokenize", "Trace_Tokenize.cfg", obs[ix]),
+                         rerun=vlib.R("drv_tokenize", "run_docs", it, hs_cache=True, fields=[k for k in obs[ix] if k != "N"]))
     for ix in drifts:
         vd.spec_drift("Tokenize", f"document {items[ix]['text'][:80]!r} tokenizer={items[ix]['tok']}")
     ev.sample({"document": items[0]["text"], "tokenizer": items[0]["tok"],
